@@ -20,6 +20,24 @@ def scenarios(rng, tier):
             session(rng, s, 1, c1, st, n_ops=10, noise=0.15, icon_len=len(icon))
         s.frame(0, reset(M)); s.frame(1, reset(M))
     cap = V.facts().get('LLTD_SEE_LIST_MAX', 0)
+    # every request type repeated: a cache fills once, a leak grows with every round
+    icon = bytes(range(200)) * 20
+    blocks = {
+      'discover': [discover(M, gen=3)], 'discover_quick': [discover(M, gen=3, tos=1)],
+      'emit': [discover(M, gen=3), emit(M, own, [(1, 0, mac(7), mac(8)), (0, 0, mac(7), mac(9))], seq=5)],
+      'query_empty': [discover(M, gen=3), query(M, own, seq=6)],
+      'probe_dup': [discover(M, gen=3), probe(mac(70), own, mac(70), own)],
+      'probe_other': [probe(mac(71), own, mac(71), mac(72))],
+      'probe_query': [probe(mac(73), own, mac(73), own), probe(mac(74), own, mac(74), own, train=True), query(M, own, seq=7)],
+      'qlt_icon0': [discover(M, gen=3), qlt(M, own, 14, 0, seq=8)], 'qlt_icon_walk': [qlt(M, own, 14, 0, seq=8), qlt(M, own, 14, 1466, seq=9), qlt(M, own, 14, 2932, seq=10)],
+      'qlt_name': [qlt(M, own, 17, 0, seq=8)], 'qlt_hwid': [qlt(M, own, 19, 0, seq=8)], 'qlt_unknown': [qlt(M, own, 99, 0, seq=8), qlt(M, own, 14, 0, seq=0)],
+      'hello_noise': [hello(mac(9)), generic(9, 0, M, M, own, own), generic(200, 2, M, M, own, own)],
+      'reset_cycle': [discover(M, gen=3), probe(mac(75), own, mac(75), own), qlt(M, own, 14, 0, seq=8), reset(M)],
+    }
+    for bn, fr in blocks.items():
+        s.start('rep_' + bn); s.lines.append(gline(host=b'h', icon=icon, fname=b'a friendly name', hwid=b'hw'))
+        for r_ in range(60 if tier == 'quick' else 400):
+            for f in fr: s.frame(0, f)
     N = 3000 if tier == 'quick' else 100000
     if cap and 3 * cap + 100 > N: N = min(3 * cap + 100, 100000 if tier == 'quick' else 1000000)   # the flood must outlast the cap the source declares
     s.start('flood_%d' % N); s.lines.append('cfg 0 mtu=576')
@@ -48,42 +66,32 @@ def project(blk, name, meta):
     if blk.fault: return ('fault',)
     if blk.op.startswith('frame'): return (blk.kv.get('live'), blk.kv.get('bytes'))
     return ()
+SLACK = 8     # allocations per interface besides record and observations (cached icon, other cached properties, ...)
 def oracle(name, ib, mb, meta):
-    fails = []; own = {0: OWN0, 1: own_of(1)}; pend = {0: set(), 1: set()}; rec = set(); iconseen = set(); hasicon = False
-    lives = []
+    """from the ledger alone: (1) a fixed bound per interface record, (2) no growth when the same requests are repeated or a
+    flood goes on (what is retained is bounded, every transient buffer was released), (3) only the records after a Reset"""
+    fails = []; rec = set(); lives = []; marks = {}
+    capf = V.facts().get('LLTD_SEE_LIST_MAX', 0) or 1024
+    pend = {}; cached = set()
     for i, b in enumerate(ib):
-        if b.op.startswith('cfg g'): hasicon = 'icon=none' not in b.op
-        elif b.op.startswith('cfg '):
-            t = b.op.split(); kv = dict(x.split('=', 1) for x in t[2:])
-            if 'mac' in kv: own[int(t[1])] = bytes(6) if kv.get('macfail') == '1' else bytes.fromhex(kv['mac'])
-        if not b.op.startswith('frame') or b.fault: continue
+        if b.op.startswith('% mark') or b.fault or not b.op.startswith('frame'): continue
         ctx, fr = frame_of(b); d = dec(fr + bytes(max(0, 36 - len(fr))))
         rec.add(ctx)
-        if d['tos'] == 0:
-            if d['opc'] in (3, 4) and d['rdst'] == own[ctx]: pend[ctx].add((d['esrc'], d['rsrc']))
-            elif d['opc'] == 6:
-                # what a QueryResp delivered leaves the record: take the count from the response itself
-                sn = sends_of(b); q = qresp_fields(sn[0][2]) if sn else None
-                if q:
-                    for (t_, rs, es, ed) in q['descs']: pend[ctx].discard((es, rs))
-            elif d['opc'] == 8: pend[ctx].clear(); iconseen.discard(ctx)
-        if d['tos'] in (0, 1) and d['opc'] == 0x0B and d['seq'] != 0 and d['body'][0] == 14 and hasicon: iconseen.add(ctx)
-        live = int(b.kv.get('live', 0)); lives.append(live)
-        capf = V.facts().get('LLTD_SEE_LIST_MAX', 0)
-        if capf and live > len(rec) * (2 + capf):
-            fails.append((i, '%d allocations live: more than the fixed bound of %d per interface record (record + %d observations + icon) that the retained state is proved to obey' % (live, 2 + capf, capf)))
-            break
-        bound = len(rec) + sum(len(p) for p in pend.values()) + len(iconseen)
-        if live > bound:
-            fails.append((i, '%d allocations live after "%s..." although at most %d can be part of the retained state (%d records, %d pending observations, %d cached icons): a buffer was not released' % (
-                live, b.op[:50], bound, len(rec), sum(len(p) for p in pend.values()), len(iconseen))))
-            break
-        if d['tos'] == 0 and d['opc'] == 8 and ctx == max(rec) and all(not pend[c] and c not in iconseen for c in rec) and live != len(rec):
-            fails.append((i, 'after the Reset %d allocations are live; only the %d interface record(s) may remain' % (live, len(rec)))); break
+        live = int(b.kv.get('live', 0)); lives.append((i, live))
+        if live > len(rec) * (1 + capf + SLACK):
+            fails.append((i, '%d allocations live with %d interface record(s): more than the fixed bound of record + %d observations + %d other blocks each' % (live, len(rec), capf, SLACK))); break
+        if d['tos'] == 0 and d['opc'] == 8: pend[ctx] = True
+        if d['tos'] == 0 and d['opc'] == 8 and len(rec) == 1 and live != 1:
+            fails.append((i, 'after the Reset %d allocations are live; only the interface record may remain' % live)); break
+    if name.startswith('rep_') and len(lives) >= 60:
+        # the same request block repeated: whatever is cached is cached after the first rounds; growth afterwards is a leak
+        third = len(lives) // 3
+        a_, b_ = lives[third][1], lives[-1][1]
+        if b_ > a_: fails.append((lives[-1][0], 'repeating the same requests keeps allocating: %d live allocations after %d frames, %d after %d frames' % (a_, third, b_, len(lives))))
     cap = V.facts().get('LLTD_SEE_LIST_MAX', 0)
-    if name.startswith('flood_') and len(lives) > 300 and not (cap and 3 * cap > len(lives)):
-        a, bb = lives[2 * len(lives) // 3], lives[-3]
-        if bb > a: fails.append((len(ib) - 3, 'retained memory keeps growing with the history: %d live allocations after %d frames, %d after %d frames' % (a, 2 * len(lives) // 3, bb, len(lives) - 3)))
+    if name.startswith(('flood_', 'floodr_')) and len(lives) > 300 and not (cap and 3 * cap > len(lives)):
+        a_, b_ = lives[2 * len(lives) // 3][1], lives[-3][1]
+        if b_ > a_: fails.append((len(ib) - 3, 'retained memory keeps growing with the history: %d live allocations after %d frames, %d after %d frames' % (a_, 2 * len(lives) // 3, b_, len(lives) - 3)))
     return fails
 def count(name, lines, ib, stats, meta):
     for b in ib:
